@@ -782,13 +782,139 @@ def shrink_case(runner, c, a, bad):
 
 
 # ----------------------------------------------------------------------------------------------
+# part 3: general module-diff oracle (hook `module_diff_edits`): Delete / Replace / Insert with and
+# without leading separator, for imports and toplevels, positioned by real AST locations
+# ----------------------------------------------------------------------------------------------
+
+MD_IMPORTS = ["import { Foo } from A;", "import {Bar} from A;", "import { Qux } from lib.B;",
+              "import { Foo, Qux } from lib.B;", "import { Only } from D;", "import {Zed} from lib.deep.C;",
+              "import {\n  Zed,\n  Bar\n} from lib.deep.C;"]
+MD_TOPS = ["class K1 {}", "class K2 { function f(): int = 1 }", "interface I1 {}", "class K3(val a: int) {}",
+           "private class K4 {}", "class K5<T> {}", "interface I2 { function g(): int }",
+           "class K6 {\n  function h(): int = 2\n}", "class K1 { function other(): int = 3 }"]
+FULL_DOC_END = 4294967295
+
+
+def gen_mdiff_pair(rng):
+    """Old and new module texts sharing a slot layout (one item or a blank line per slot), so that
+    unchanged items keep their locations and the differ produces genuine inserts/deletes/replaces."""
+    ni, nt = rng.range(0, 4), rng.range(0, 4)
+    def slots(pool, n):
+        return [rng.pick(pool) if rng.chance(3, 4) else None for _ in range(n)]
+    oi, ot = slots(MD_IMPORTS, ni), slots(MD_TOPS, nt)
+    def edit(xs, pool):
+        ys = list(xs)
+        for _ in range(rng.range(0, 3)):
+            k = rng.below(4)
+            if k == 0 or not ys:
+                ys.append(rng.pick(pool))                       # append at the end
+            else:
+                i = rng.below(len(ys))
+                if k == 1: ys[i] = None                          # delete (or keep blank)
+                elif k == 2: ys[i] = rng.pick(pool)              # insert into a blank / replace
+                else: ys[i] = ys[i]
+        return ys
+    ni_, nt_ = edit(oi, MD_IMPORTS), edit(ot, MD_TOPS)
+    # no comments: replacing a node that carries comments re-prints them without covering them in
+    # the replaced range (duplicated comment) - a defect of the general differ that auto-import cannot
+    # reach (its only new node has no comments); kept out of this stream, see reports/C16.md
+    head = rng.pick(["", "", "\n", "\n\n"])
+    def render(imps, tops, n_imp_slots):
+        # imports occupy the first n_imp_slots "paragraphs", padded so that toplevels start at the same line
+        lines = []
+        for x in imps:
+            lines.append(x if x is not None else "")
+        body = "\n".join(lines)
+        pad = n_imp_slots - len(imps)
+        body += "\n" * max(pad, 0)
+        tl = [x if x is not None else "" for x in tops]
+        return head + body + ("\n" if lines else "") + "\n".join(tl) + "\n"
+    width = max(len(oi), len(ni_))
+    # multi-line items shift later lines; that is fine (they then differ by location => Replace)
+    return render(oi, ot, width), render(ni_, nt_, width)
+
+
+def md_splice(text, edits):
+    fixed = []
+    nlines = text.count("\n")
+    for (sl, sc, el, ec), new in edits:
+        if (el, ec) == (FULL_DOC_END, FULL_DOC_END):   # Location::full_document: clients clamp to the end
+            tb = text.encode(); starts = line_starts(tb)
+            el = len(starts) - 1; ec = len(tb) - starts[-1]
+        fixed.append(((sl, sc, el, ec), new))
+    return splice(text, fixed)
+
+
+def check_mdiffs(ctx, runner, pairs, label, stats):
+    lines = [f"mdiff {hexs(a)} {hexs(b)}" for a, b in pairs]
+    out = runner.harness(lines)
+    l2, idx = [], []
+    for (a, b), ans in zip(pairs, out):
+        stats["md_pairs"] += 1
+        if ans == "skip":
+            stats["md_skipped"] += 1; idx.append(None); continue
+        if ans.startswith("panic:") or ans.startswith("<"):
+            idx.append(("fail", "module_diff_edits panicked: " + (unhex(ans[6:]).decode("utf-8", "replace") if ans.startswith("panic:") else ans), None, None)); continue
+        try:
+            edits = parse_edits(ans)
+        except ValueError as ex:
+            idx.append(("fail", str(ex), None, None)); continue
+        sp, why = md_splice(a, edits)
+        if sp is None:
+            idx.append(("fail", why, edits, None)); continue
+        idx.append(("eval", len(l2), edits, sp))
+        l2 += [f"sum {hexs(sp)}", f"sum {hexs(b)}"]
+    o2 = runner.harness(l2) if l2 else []
+    for (a, b), st in zip(pairs, idx):
+        if st is None:
+            continue
+        bad = None
+        if st[0] == "fail":
+            bad = st[1]
+        else:
+            got, want = o2[st[1]], o2[st[1] + 1]
+            pg, pw = re.match(r"^syn=(\d+) imports=(\S+) tops=(\S+) comments=(\S+)$", got), re.match(r"^syn=(\d+) imports=(\S+) tops=(\S+) comments=(\S+)$", want)
+            if not pg or not pw:
+                bad = "unreadable summary " + got[:60]
+            elif pw.group(1) != "0":
+                continue      # generator produced an invalid target; not a case
+            elif pg.group(1) != "0":
+                bad = "edited text has syntax errors"
+            elif pg.group(2) != pw.group(2):
+                bad = f"imports of the edited text are {pg.group(2)}, expected {pw.group(2)}"
+            elif pg.group(3) != pw.group(3):
+                bad = "toplevels of the edited text differ from the target module"
+            elif sorted(pg.group(4).split(",")) != sorted(pw.group(4).split(",")):
+                bad = "comments of the edited text differ from the target module"
+        if bad:
+            if len(ctx.violations) < 3:
+                ctx.violation("module diff edits (ast_differ.rs change -> edit conversion) do not turn the old text into the new module: " + bad,
+                              {"protocol": "mdiff", "label": label, "old_text": a, "new_text": b, "ops": [f"mdiff {hexs(a)} {hexs(b)}"],
+                               "edits": [{"range": "%d:%d-%d:%d" % e[0], "text": e[1]} for e in (st[2] or [])], "edited": st[3]})
+        else:
+            stats["md_ok"] += 1
+            kinds = set()
+            for (sl, sc, el, ec), new in st[2]:
+                kinds.add("insert" if (sl, sc) == (el, ec) else ("delete" if new == "" else "replace"))
+                if new.startswith("\n"): kinds.add("insert-leading-sep")
+                if el == FULL_DOC_END: kinds.add("full-document")
+            for k in kinds:
+                stats["md_kinds"][k] = stats["md_kinds"].get(k, 0) + 1
+            if len(st[2]) >= 2:
+                stats["md_nontrivial"].add((a, b))
+            if len(stats["md_samples"]) < 2 and len(st[2]) >= 2:
+                stats["md_samples"].append({"old_text": a, "new_text": b, "edits": [{"range": "%d:%d-%d:%d" % e[0], "text": e[1]} for e in st[2]]})
+
+
+# ----------------------------------------------------------------------------------------------
 # run
 # ----------------------------------------------------------------------------------------------
 
 def new_stats():
     return {"diff_lines": 0, "shape": {}, "distinct_pairs": set(), "nontrivial_pairs": 0, "change_kinds": {},
             "samples": [], "cases": 0, "history": {}, "imports_hist": {}, "state_panics": 0, "actions": 0,
-            "action_kinds": {}, "actions_ok": 0, "distinct_actions": set(), "doc_samples": [], "known_hits": 0}
+            "action_kinds": {}, "actions_ok": 0, "distinct_actions": set(), "doc_samples": [], "known_hits": 0,
+            "md_pairs": 0, "md_skipped": 0, "md_ok": 0, "md_kinds": {}, "md_nontrivial": set(), "md_samples": []}
 
 
 def corpus_pairs():
@@ -846,10 +972,17 @@ def run(ctx):
             batch = [gen_case(rng.fork(), want_nosemi=rng.chance(1, 8)) for _ in range(min(65, ndocs - done))]
             done += len(batch)
             runner.run_cases(batch, f"generated documents seed={ctx.seed}")
-    ev_docs = stats["actions"]
+        # general module-diff oracle
+        nmd = ctx.scale(1500, 30000)
+        done = 0
+        while done < nmd and len(ctx.violations) < 1:
+            batch = [gen_mdiff_pair(rng) for _ in range(min(500, nmd - done))]
+            done += len(batch)
+            check_mdiffs(ctx, runner, batch, f"generated module pairs seed={ctx.seed}", stats)
+    ev_docs = stats["actions"] + stats["md_pairs"] - stats["md_skipped"]
     ctx.cov.update({
         "evaluations": stats["diff_lines"] + ev_docs,
-        "distinct_nontrivial": stats["nontrivial_pairs"] + len(stats["distinct_actions"]),
+        "distinct_nontrivial": stats["nontrivial_pairs"] + len(stats["distinct_actions"]) + len(stats["md_nontrivial"]),
         "rule": ("(a) list pairs: all pairs over {0,1,2} up to a length bound + random structured pairs (append-one, "
                  "edits of old, random, full replace, empty, equal, long, duplicates-only); a pair is non-trivial if its "
                  "script has a replace (fusion ran) or >= 2 changes; (b) documents: generated import headers (0-4 imports, "
@@ -858,8 +991,13 @@ def run(ctx):
                  "server GC) x edit history (none, pre_mention = 1-3 unrelated updates before the document first mentions "
                  "the class, doc edits incl. a broken version, late export, exporter rename/removal, doc created by "
                  "update); every quick fix and completion additional edit returned is spliced and re-analysed; counted "
-                 "distinct by (document, api, class, module)"),
-        "samples": stats["samples"] + stats["doc_samples"],
+                 "distinct by (document, api, class, module); (c) module pairs: old/new module texts sharing a slot "
+                 "layout (items from small pools of imports/toplevels, blank slots, appends), `module_diff_edits` spliced "
+                 "into the old text must give the new module (imports, toplevels, comments); non-trivial = >= 2 edits"),
+        "samples": stats["samples"] + stats["doc_samples"] + stats["md_samples"],
+        "module_diff_pairs": stats["md_pairs"], "module_diff_pairs_ok": stats["md_ok"],
+        "module_diff_pairs_skipped_invalid": stats["md_skipped"], "module_diff_edit_kind_histogram": stats["md_kinds"],
+        "module_diff_pairs_with_2plus_edits": len(stats["md_nontrivial"]),
         "traces_validated_against_impl": stats["diff_lines"],
         "diff_pairs": stats["diff_lines"], "distinct_pairs": len(stats["distinct_pairs"]),
         "nontrivial_pairs": stats["nontrivial_pairs"],
@@ -874,7 +1012,8 @@ def run(ctx):
         "list lengths < 2^31 (the `as i32` casts of positions are not modelled)",
         "edit columns are interpreted in the lexer's own unit (UTF-8 bytes within the line)",
         "the auto-import edit is computed by diffing `imports` against `imports ++ [new import]` on a cloned AST "
-        "(lib.rs:554-575); other list shapes reach the differ only through the `diff` protocol",
+        "(lib.rs:554-575; closed form: theorem diff_append_one); other list shapes reach the differ through the `diff` "
+        "protocol and the module-pair oracle",
     ]
     return ctx.finish(res, trusted=common.TRUSTED_COMMON + [
         "hand-written model Model/Differ.lean (HashMap `visited` as association list; insert loop as a recursion over "
@@ -883,12 +1022,7 @@ def run(ctx):
         "the Python oracle uses an independent positional reading",
         "not modelled (oracle only): pretty-printing of the inserted import, `Change::to_edit` text assembly, "
         "Location arithmetic on real tokens, ServerState bookkeeping",
-    ], extra={"partial_theorems": [], "pending": [
-        "longestTrace_total: the BFS reaches (n, m) within defaultFuel rounds (termination of the Rust `loop`); until proved, "
-        "trace_valid/diff_correct are stated for every fuel value at which the search returns, and the driver reports "
-        "`out-of-fuel` (never observed; it would show up as a correspondence disagreement)",
-        "diff_append_one: closed form of the script for the auto-import shape imports ++ [new] (covered by the `append1` "
-        "stream of the correspondence and by the document oracle)"]})
+    ], extra={"partial_theorems": [], "pending": []})
 
 
 def replay(ctx, path):
@@ -921,5 +1055,14 @@ def replay(ctx, path):
             if sp: print("edited document:\n" + sp)
         print(f"actions checked: {stats['actions']}, ok: {stats['actions_ok']}")
         return 1 if hits else 0
+    if rp.get("protocol") == "mdiff":
+        stats = new_stats()
+        r = DocRunner(ctx, stats)
+        check_mdiffs(ctx, r, [(rp["old_text"], rp["new_text"])], "replay", stats)
+        print("old text:\n" + rp["old_text"] + "\nnew text:\n" + rp["new_text"])
+        for path, _, what in ctx.violations:
+            print("FAIL " + what)
+        print(f"module pairs ok: {stats['md_ok']}/1")
+        return 1 if ctx.violations else 0
     print(json.dumps(data, indent=1))
     return 1
